@@ -70,14 +70,19 @@ Print Assumptions C09_model_taint_has_data_edges.
 
 (* Every name whose value is observed by an effect (branch decisions; dimensions, returns, asserts;
    constraints mentioning an input/output signal; values assigned to input/output signals) is in the
-   sink set of the mirror of run_side_effect_analysis. *)
+   sink set of the mirror of run_side_effect_analysis.  "Mentions" is relative to a dependence relation
+   [dep] (Spec.CtlDep.mentions_by); all that is needed of it is that the set of names the mirror finds
+   tainted by an input/output signal is closed under it.  dep = data dependence: C09_noninterference;
+   dep = data + control dependence: C09_noninterference_with_implicit_flows. *)
 Theorem C09_model_sinks_cover_required :
   forall (V : Type) (sem_num : Z -> V) (sem_infix : infix_op -> V -> V -> V) (sem_prefix : prefix_op -> V -> V)
     (sem_switch : V -> V -> V -> V) (sem_call : ident -> list V -> V) (sem_array : list V -> V)
     (sem_access : V -> list (access V) -> V) (sem_update : V -> list (access V) -> V -> V)
     (sem_phi : list pcT -> list (vname * V) -> V) (sem_undef : V) (truthy : V -> bool)
-    (g : cfg) (ment : stmt -> bool) (br : list (N * (list N * list N))),
-    ment_sound g ment ->
+    (g : cfg) (ment : stmt -> bool) (br : list (N * (list N * list N))) (dep : vname -> vname -> Prop),
+    (forall es, exported_sinks g (t_edges (run_taint_analysis g br)) = Ok es ->
+                forall a b, In a es -> dep a b -> In b es) ->
+    Spec.CtlDep.ment_sound_by g dep ment ->
     exported_targets_declared g = true ->
     forall snk : list vname,
     sinks g (t_edges (run_taint_analysis g br)) (run_constraint_analysis g) = Ok snk ->
@@ -142,6 +147,62 @@ Theorem C09_noninterference_never_read :
       = run vname V pcT vname_eq_dec pr' n (h, pc, s').
 Proof. exact noninterference_of_unused_claims. Qed.
 Print Assumptions C09_noninterference_never_read.
+
+(* ---------------------------------------------------------------------------
+   Implicit flows and the branch regions (third audit).
+   Spec.CtlDep defines, with paths only, when block y is control dependent on branch block b
+   (y post-dominates a successor of b and does not strictly post-dominate b), the implicit flow
+   [cdep r x] (r read by a non-constant condition at b, x written in a block control dependent on b) and
+   information flow [idep] = data dependence \/ cdep.
+   --------------------------------------------------------------------------- *)
+Require Import Spec.CtlDep Proofs.CtlDepProofs.
+Require Model.BranchRegion.
+
+(* the decidable form evaluated by the model driver decides control dependence *)
+Theorem C09_ctl_dependent_b_decides :
+  forall (g : cfg) (b y : N), ctl_dependent_b g b y = true <-> ctl_dependent g b y.
+Proof. exact ctl_dependent_b_spec. Qed.
+Print Assumptions C09_ctl_dependent_b_decides.
+
+(* ... and [ctl_closed_b g B] (evaluated on every dumped graph, on the mirror's and on the REAL set of names
+   tainted by an input/output signal) holds exactly when B is closed under implicit flows: a branch region that
+   misses a control-dependent block whose writes nothing else taints makes it false. *)
+Theorem C09_ctl_closed_b_exact :
+  forall (g : cfg) (B : list vname), ctl_closed_b g B = true <-> ctl_closed g B.
+Proof. intros g B. split; [apply ctl_closed_b_sound | apply ctl_closed_b_complete]. Qed.
+Print Assumptions C09_ctl_closed_b_exact.
+
+(* CS0008 with implicit flows: every `no side effect` claim of the mirror is true when "a constraint
+   mentions an input or output signal" means: it uses a name that an input/output signal reaches by data OR
+   control dependence - provided the set of names the mirror finds tainted by an input/output signal is closed
+   under control dependence.  This is the one place where the branch regions [br] matter: with regions
+   computed too small the hypothesis fails (C09_region_too_small_is_visible). *)
+Theorem C09_noninterference_with_implicit_flows :
+  forall (V : Type) (sem_num : Z -> V) (sem_infix : infix_op -> V -> V -> V) (sem_prefix : prefix_op -> V -> V)
+    (sem_switch : V -> V -> V -> V) (sem_call : ident -> list V -> V) (sem_array : list V -> V)
+    (sem_access : V -> list (access V) -> V) (sem_update : V -> list (access V) -> V -> V)
+    (sem_phi : list pcT -> list (vname * V) -> V) (sem_undef : V) (truthy : V -> bool)
+    (g : cfg) (br : list (N * (list N * list N))) (ment : stmt -> bool) (res : result) (f : finding)
+    (es : list vname),
+    exported_sinks g (t_edges (run_taint_analysis g br)) = Ok es ->
+    ctl_closed_b g es = true ->
+    ment_sound_by g (idep g) ment ->
+    exported_targets_declared g = true ->
+    run_side_effect_analysis g br = Ok res ->
+    In f (r_findings res) ->
+    f_kind f = FVarNoSideEffect \/ f_kind f = FParamNoSideEffect ->
+    forall pr',
+      perturbed vname V pcT (f_var f)
+        (ssa_prog V sem_num sem_infix sem_prefix sem_switch sem_call sem_array sem_access sem_update sem_phi
+                  sem_undef truthy g ment) pr' ->
+    forall s s' : vname -> V, (forall y, y <> f_var f -> s y = s' y) ->
+    forall h pc n,
+      run vname V pcT vname_eq_dec
+        (ssa_prog V sem_num sem_infix sem_prefix sem_switch sem_call sem_array sem_access sem_update sem_phi
+                  sem_undef truthy g ment) n (h, pc, s)
+      = run vname V pcT vname_eq_dec pr' n (h, pc, s').
+Proof. exact noninterference_with_implicit_flows. Qed.
+Print Assumptions C09_noninterference_with_implicit_flows.
 
 (* ---------------------------------------------------------------------------
    Location faithfulness: from a finding to the statement that defines the flagged SSA name.
@@ -259,3 +320,35 @@ Example C09_location_hypotheses_satisfiable :
   omap (fun r => map (fun f => (f_kind f, f_var f, f_meta f)) (filter is_variable_claim (r_findings r)))
        (run_side_effect_analysis w_cfg_dead []) = Ok [(FUnusedVar, w_x0, w_m 37 52)].
 Proof. vm_compute. repeat split; reflexivity. Qed.
+
+(* `var y = 0; if (in0 == 0) { y = 1; }` : block 0 branches on the input, block 1 (the true branch) writes y.1,
+   block 2 is the join with y.2 = phi(y.0, y.1). *)
+Definition w_y (k : N) : vname := {| vn_name := [121]%N; vn_suffix := None; vn_version := Some k |}.
+Definition w_cfg_if : cfg :=
+  {| c_kind := KTemplate; c_params := [];
+     c_decls := [(w_in0, TSigIn); (w_y 0, TLocal); (w_y 1, TLocal); (w_y 2, TLocal)];
+     c_blocks := [ {| b_index := 0; b_depth := 0;
+                      b_stmts := [ SDecl (w_m 17 33) [w_in0] TSigIn [];
+                                   SSubst (w_m 37 46) (w_y 0) OpVar (ENum 0 know0) None (Some TLocal);
+                                   SIf (w_m 50 80) (EInfix IEq (EVar w_in0 know0) (ENum 0 know0) know0) 1 None ];
+                      b_preds := []; b_succs := [1; 2]%N |};
+                   {| b_index := 1; b_depth := 0;
+                      b_stmts := [ SSubst (w_m 66 71) (w_y 1) OpVar (ENum 1 know0) None (Some TLocal) ];
+                      b_preds := [0%N]; b_succs := [2%N] |};
+                   {| b_index := 2; b_depth := 0;
+                      b_stmts := [ SSubst (w_m 0 0) (w_y 2) OpVar (EPhi [w_y 0; w_y 1] know0) None (Some TLocal) ];
+                      b_preds := [0; 1]%N; b_succs := [] |} ] |}.
+
+(* the mirror of get_true_branch / get_false_branch computes the region {1} for the branch at block 0;
+   block 1 is control dependent on block 0 and the join block 2 is not; with that region the hypothesis of
+   C09_noninterference_with_implicit_flows holds (it is satisfiable) ... *)
+Example C09_region_example :
+  Model.BranchRegion.branches_of w_cfg_if = Ok [(0%N, ([1%N], []))] /\
+  ctl_dependent_b w_cfg_if 0 1 = true /\ ctl_dependent_b w_cfg_if 0 2 = false /\
+  omap (ctl_closed_b w_cfg_if) (exported_sinks w_cfg_if (t_edges (run_taint_analysis w_cfg_if [(0%N, ([1%N], []))]))) = Ok true.
+Proof. vm_compute. repeat split; reflexivity. Qed.
+
+(* ... and with a region computed too small (empty) it is false: the hypothesis is what a too small region breaks *)
+Example C09_region_too_small_is_visible :
+  omap (ctl_closed_b w_cfg_if) (exported_sinks w_cfg_if (t_edges (run_taint_analysis w_cfg_if [(0%N, ([], []))]))) = Ok false.
+Proof. vm_compute. reflexivity. Qed.
